@@ -44,9 +44,11 @@ class Basis:
         self.areas = [A(f(borders[i]), f(borders[i + 1])) for i in range(len(borders) - 1)]
 
     def is_below_x(self, x):
+        self.asked_below = getattr(self, "asked_below", []) + [x]
         return self._below
 
     def __call__(self, x):
+        self.asked_value = getattr(self, "asked_value", []) + [x]
         return self.sy.U("p", self.j, x)
 
 
@@ -149,12 +151,15 @@ def sec_convolution(rep):
                                 res, err = conv.convolution(rsl, sy.x, bf)
                                 out = []
                                 empty = below or bool(sy.x >= 1 - eps)
+                                # pre-at-call: the basis function is asked about the convolution point itself
+                                asked = [("pre-at-call: is_below_x asked about x itself", all(a is sy.x or (sy.is_numeric and a == sy.x) for a in getattr(bf, "asked_below", [])), True), ("pre-at-call: f evaluated at x itself", all(a is sy.x or (sy.is_numeric and a == sy.x) for a in getattr(bf, "asked_value", [])), True)]
                                 if empty:
-                                    return [("empty-domain: value", res, 0), ("empty-domain: error", err, 0), ("empty-domain: no quadrature", len(q.calls), 0)]
+                                    return asked[:1] + [("empty-domain: value", res, 0), ("empty-domain: error", err, 0), ("empty-domain: no quadrature", len(q.calls), 0)]
                                 fx = sy.U("p", 2, sy.x)
                                 loc_term = fx * sy.U("loc", sy.x, sy.al) if has_loc else 0
                                 if not (has_reg or has_sing):
                                     return [("no kernel: value = f(x) loc(x)", res, loc_term), ("no kernel: error", err, 0), ("no kernel: no quadrature", len(q.calls), 0)]
+                                out += asked
                                 out.append(("one quadrature", len(q.calls), 1))
                                 c = q.calls[0]
                                 out.append(("value = QUAD + f(x) loc(x)", res, sy.U("QUAD", 1) + loc_term))
